@@ -17,28 +17,49 @@ fn block_on<F: Future>(f: F) -> F::Output {
 }
 
 /// Bucket shape: N directories, the populated ones are the run of `c` directories ending at the
-/// newest position `p` (going backwards with wrap-around); upload times increase along the run.
-/// f(i) = Some(age rank 1..=c) inside the run, None outside.
-fn shape_value(n: usize, p: usize, c: usize, i: usize) -> Option<u32> {
-    // distance going backwards from p to i, modulo n
-    let back = if i <= p { p - i } else { p + n - i };
-    if back < c {
-        Some((c - back) as u32)
-    } else {
-        None
+/// newest position `p` (going backwards with wrap-around).  WHICH directories are populated is
+/// concrete per run (CBMC cannot carry the search's VecDeque through a symbolic split, see
+/// DESIGN.md C15); their upload times are symbolic: any strictly increasing u32 values along the run.
+fn latest<const N: usize>() {
+    let mut c = 0usize;
+    while c <= N {
+        let mut p = 0usize;
+        while p < N {
+            if c == 0 && p > 0 {
+                break;
+            }
+            run_shape::<N>(p, c);
+            p += 1;
+        }
+        c += 1;
     }
 }
 
-fn latest<const N: usize>() {
-    let p: usize = kani::any();
-    let c: usize = kani::any();
-    kani::assume(p < N && c <= N);
+fn run_shape<const N: usize>(p: usize, c: usize) {
+    // times[k] = upload time of the k-th oldest populated directory
+    let t: [u32; N] = kani::any();
+    let mut k = 1;
+    while k < c {
+        kani::assume(t[k - 1] < t[k]);
+        k += 1;
+    }
+    if c > 0 {
+        kani::assume(t[c - 1] < u32::MAX);
+    }
+    let mut table: [Option<u32>; N] = [None; N];
+    let mut k = 0;
+    while k < c {
+        // k-th oldest sits c-1-k steps behind the newest position p
+        let back = c - 1 - k;
+        let idx = (p + N - back) % N;
+        table[idx] = Some(t[k]);
+        k += 1;
+    }
     let calls = Cell::new(0usize);
     let r = block_on(search(N, u32::MAX, |i| {
         calls.set(calls.get() + 1);
         assert!(i < N, "C15: directory index out of range requested");
-        let v = shape_value(N, p, c, i);
-        async move { Ok(v) }
+        core::future::ready(Ok(table[i]))
     }));
     let r = match r {
         Ok(r) => r,
@@ -60,7 +81,6 @@ fn latest<const N: usize>() {
     assert!(calls.get() <= N + lg + 2, "C15: too many listing requests");
     wit!(c == N && p == N - 1);
     wit!(c == 0);
-    wit!(N > 2 && c == 1 && p == 1);
 }
 
 macro_rules! latest_harness {
